@@ -45,6 +45,10 @@ type siteArgs struct {
 	Site   string            `json:"site"`
 	Raw    []rawLine         `json:"raw,omitempty"`  // site include-raw: the lines of the env file, values are templates
 	Raw2   [][]rawLine       `json:"raw2,omitempty"` // site include-raw2: several env files in one include entry
+	// sites after-include-*: the env files of include entries that are processed *before* the document holding the
+	// template is interpolated but do not enclose it.  They are not handed to the Lean side: the model (and the
+	// grammar) say that the value does not depend on them (no lookup state is carried from one document to the next).
+	Other [][][2]string `json:"other,omitempty"`
 }
 
 type rawLine struct {
@@ -84,7 +88,67 @@ func siteFiles(a siteArgs, t string) (files map[string]string, wantLayers int, s
 		}
 		return s
 	}
+	other := func(i int) string {
+		if i >= len(a.Other) {
+			return ""
+		}
+		s, ok := envFileText(a.Other[i])
+		if !ok {
+			skip = "value not expressible single-quoted"
+		}
+		return s
+	}
+	plainSvc := "services:\n  i:\n    image: img\n"
 	switch a.Site {
+	case "after-include-override":
+		// ConfigFiles = [compose.yaml, override.yaml]: the first file's include (own env file) is applied before the
+		// second file is interpolated — with the project environment, not the include's
+		files["compose.yaml"] = "name: p\ninclude:\n  - path: inc/c.yaml\n    env_file: inc/v.env\n"
+		files["inc/c.yaml"] = plainSvc
+		files["inc/v.env"] = other(0)
+		files["override.yaml"] = svcYAML("s", t, "")
+	case "after-include-dotenv-override":
+		// the same with the default `.env` beside the included file
+		files["compose.yaml"] = "name: p\ninclude:\n  - inc/c.yaml\n"
+		files["inc/c.yaml"] = plainSvc
+		files["inc/.env"] = other(0)
+		files["override.yaml"] = svcYAML("s", t, "")
+	case "after-include-multidoc":
+		// a later YAML document of the file whose first document has the include
+		files["compose.yaml"] = "name: p\ninclude:\n  - path: inc/c.yaml\n    env_file: inc/v.env\n---\n" + svcYAML("s", t, "")
+		files["inc/c.yaml"] = plainSvc
+		files["inc/v.env"] = other(0)
+	case "after-include-extends":
+		// the override file's service extends a third file (loadYamlFile called again with cloned options) after the include
+		files["compose.yaml"] = "name: p\ninclude:\n  - path: inc/c.yaml\n    env_file: inc/v.env\n"
+		files["inc/c.yaml"] = plainSvc
+		files["inc/v.env"] = other(0)
+		files["override.yaml"] = "services:\n  s:\n    extends:\n      file: base.yaml\n      service: b\n"
+		files["base.yaml"] = svcYAML("b", t, "")
+	case "after-include-sibling":
+		// a second include entry (no env file of its own) after one with an env file
+		files["compose.yaml"] = "name: p\ninclude:\n  - path: inc/c.yaml\n    env_file: inc/v.env\n  - path: inc2/c.yaml\n"
+		files["inc/c.yaml"] = plainSvc
+		files["inc/v.env"] = other(0)
+		files["inc2/c.yaml"] = svcYAML("s", t, "")
+	case "after-include-nested-files":
+		// an include entry with two files: the first one has an include of its own (env file sub/v.env), the second one
+		// holds the template and sees the entry's env file only
+		wantLayers = 1
+		files["compose.yaml"] = "name: p\ninclude:\n  - path: [inc/a.yaml, inc/b.yaml]\n    env_file: inc/v.env\n"
+		files["inc/a.yaml"] = "include:\n  - path: sub/c.yaml\n    env_file: sub/v.env\n"
+		files["inc/v.env"] = layer(0)
+		files["inc/sub/c.yaml"] = plainSvc
+		files["inc/sub/v.env"] = other(0)
+		files["inc/b.yaml"] = svcYAML("s", t, "")
+	case "after-include-nested-multidoc":
+		// the same inside one included file with two YAML documents
+		wantLayers = 1
+		files["compose.yaml"] = "name: p\ninclude:\n  - path: inc/a.yaml\n    env_file: inc/v.env\n"
+		files["inc/a.yaml"] = "include:\n  - path: sub/c.yaml\n    env_file: sub/v.env\n---\n" + svcYAML("s", t, "")
+		files["inc/v.env"] = layer(0)
+		files["inc/sub/c.yaml"] = plainSvc
+		files["inc/sub/v.env"] = other(0)
 	case "main", "skip":
 		files["compose.yaml"] = "name: p\n" + svcYAML("s", t, "")
 	case "seq":
@@ -188,7 +252,11 @@ func init() {
 			if skip != "" {
 				return map[string]any{"skip": skip}
 			}
-			req := core.LoadReq{Files: files, ConfigFiles: []string{"compose.yaml"}, Env: a.Env, SkipInterpolation: a.Site == "skip"}
+			cfs := []string{"compose.yaml"}
+			if _, two := files["override.yaml"]; two {
+				cfs = append(cfs, "override.yaml")
+			}
+			req := core.LoadReq{Files: files, ConfigFiles: cfs, Env: a.Env, SkipInterpolation: a.Site == "skip"}
 			root, err := core.Materialize(files)
 			defer os.RemoveAll(root)
 			if err != nil {
@@ -245,6 +313,18 @@ func init() {
 					raw = []rawLine{}
 				}
 				return map[string]any{"ast": a.Ast, "env": a.Env, "raw": raw}
+			}
+			if strings.HasPrefix(a.Site, "after-include-") {
+				// the Lean side walks the site's documents with the stateful model (Model/TemplateDocs.lean: heap of
+				// interp.Options cells); the grammar side never sees `other`
+				o := [][2]string{}
+				if len(a.Other) > 0 && a.Other[0] != nil {
+					o = a.Other[0]
+				}
+				if layers == nil {
+					layers = [][][2]string{}
+				}
+				return map[string]any{"ast": a.Ast, "env": a.Env, "layers": layers, "after": a.Site, "other": o}
 			}
 			return map[string]any{"ast": a.Ast, "env": a.Env, "layers": layers}
 		},
@@ -333,13 +413,20 @@ func siteJudge(args, real, drv json.RawMessage) *core.Verdict {
 			if !d.WF {
 				return core.Fail("grammar:newline-in-argument", fmt.Sprintf("site %s: %q loaded as %s but the grammar says %s", a.Site, r.Rendered, r.Out, d.Eval))
 			}
-			return core.Fail("site-mapping:"+a.Site+":"+siteStateKey(a), fmt.Sprintf("site %s: %q with environment %v, env files %v%s loaded as %s but the grammar (first layer that sets the variable wins) says %s", a.Site, r.Rendered, a.Env, a.Layers, rawText(a), r.Out, d.Eval))
+			return core.Fail("site-mapping:"+a.Site+":"+siteStateKey(a), fmt.Sprintf("site %s: %q with environment %v, env files %v%s%s loaded as %s but the grammar (first layer that sets the variable wins) says %s", a.Site, r.Rendered, a.Env, a.Layers, rawText(a), otherText(a), r.Out, d.Eval))
 		}
 	}
 	if !modelOK {
 		return core.Disagree(fmt.Sprintf("site %s: siteSubst ≠ loaded value (%s vs %s)", a.Site, d.Model, r.Out))
 	}
 	return nil
+}
+
+func otherText(a siteArgs) string {
+	if len(a.Other) == 0 {
+		return ""
+	}
+	return fmt.Sprintf(", env files of include entries processed earlier (must not matter) %v", a.Other)
 }
 
 func rawText(a siteArgs) string {
@@ -382,8 +469,13 @@ func siteStateKey(a siteArgs) string {
 	if len(a.Raw) > 0 || len(a.Raw2) > 0 {
 		seen["file-interpolated"] = true
 	}
+	for _, l := range a.Other {
+		if len(l) > 0 {
+			seen["earlier-include-sets"] = true
+		}
+	}
 	var ks []string
-	for _, k := range []string{"env-set-empty", "env-set", "file-shadowed", "file-set-empty", "file-set", "file-interpolated"} {
+	for _, k := range []string{"env-set-empty", "env-set", "file-shadowed", "file-set-empty", "file-set", "file-interpolated", "earlier-include-sets"} {
 		if seen[k] {
 			ks = append(ks, k)
 		}
@@ -393,6 +485,10 @@ func siteStateKey(a siteArgs) string {
 	}
 	return strings.Join(ks, ",")
 }
+
+// sites in which an include entry that does not enclose the template's document is applied before that document is
+// interpolated (round 6; seed C07-8: lookup state carried from the include into later documents of the parent)
+var c07AfterSites = []string{"after-include-override", "after-include-dotenv-override", "after-include-multidoc", "after-include-extends", "after-include-sibling", "after-include-nested-files", "after-include-nested-multidoc"}
 
 var c07Sites = []string{"main", "seq", "extends", "include", "include-dotenv", "include-nested", "include-extends", "name", "skip", "custom", "custom-include"}
 
@@ -456,6 +552,79 @@ func runC07Sites(ctx *core.Ctx, rnd func(depth int, inArg bool) []seg) {
 				}
 			}
 		}
+	}
+	// after-include-*: a document interpolated after an include entry (whose env file sets A and/or B differently from
+	// the layers that enclose the document) has been applied.  States of A: enclosing layers (project environment, own
+	// env file where the site has one) × the earlier include's env file; the value must not depend on the latter.
+	for _, site := range c07AfterSites {
+		nl := layersOf(site)
+		for _, ast := range asts {
+			for _, ea := range envStates {
+				for _, eb := range []*string{nil, str("b")} {
+					for _, la := range []*string{nil, str(""), str("w")} {
+						if la != nil && nl == 0 {
+							continue
+						}
+						for _, oa := range fileStates {
+							for _, ob := range []*string{nil, str("ob")} {
+								if oa == nil && ob == nil {
+									continue
+								}
+								a := siteArgs{Ast: ast, Env: map[string]string{}, Site: site}
+								if ea != nil {
+									a.Env["A"] = *ea
+								}
+								if eb != nil {
+									a.Env["B"] = *eb
+								}
+								if nl > 0 {
+									l := [][2]string{}
+									if la != nil {
+										l = append(l, [2]string{"A", *la})
+									}
+									a.Layers = [][][2]string{l}
+								}
+								o := [][2]string{}
+								if oa != nil {
+									o = append(o, [2]string{"A", *oa})
+								}
+								if ob != nil {
+									o = append(o, [2]string{"B", *ob})
+								}
+								a.Other = [][][2]string{o}
+								ctx.Count("site-exhaustive:" + site)
+								ctx.Add("substSite", a)
+							}
+						}
+					}
+				}
+			}
+		}
+	}
+	for i := 0; i < ctx.Pick(1200, 30000); i++ {
+		a := siteArgs{Ast: rnd(3, false), Env: map[string]string{}, Site: c07AfterSites[ctx.Rng.Intn(len(c07AfterSites))]}
+		rn := []string{"A", "B", "_x1", "a", "Kf"}
+		vs := []string{"", "", "v", "val", "${B:-$$}"}
+		for _, nm := range rn {
+			if ctx.Rng.Intn(3) == 0 {
+				a.Env[nm] = vs[ctx.Rng.Intn(len(vs))]
+			}
+		}
+		mk := func(p int) [][2]string {
+			l := [][2]string{}
+			for _, nm := range rn {
+				if ctx.Rng.Intn(p) == 0 {
+					l = append(l, [2]string{nm, vs[ctx.Rng.Intn(len(vs))]})
+				}
+			}
+			return l
+		}
+		for l := 0; l < layersOf(a.Site); l++ {
+			a.Layers = append(a.Layers, mk(3))
+		}
+		a.Other = [][][2]string{mk(2)}
+		ctx.Count("site-random:" + a.Site)
+		ctx.Add("substSite", a)
 	}
 	// include-raw: the env file's own values are templates.  X="<line template over A, B>", optionally after a line
 	// that sets A in the file; the included label reads X.
